@@ -4,7 +4,13 @@ package main
 
 import (
 	"bufio"
+	"crypto/ecdsa"
+	"crypto/elliptic"
+	crand "crypto/rand"
 	"crypto/rsa"
+	"crypto/x509/pkix"
+	"math/big"
+	"net/http"
 	"crypto/tls"
 	"crypto/x509"
 	"encoding/json"
@@ -41,7 +47,7 @@ func main() {
 		},
 		RaceFiles: []string{"/mitm/"},
 		Plan: func(tier string, seed int64) []vh.Batch {
-			bs := []vh.Batch{{Name: "direct-0", TimeoutS: 900}, {Name: "proxy-0", TimeoutS: 900}, {Name: "expiry-0", TimeoutS: 900}, {Name: "conc-0", TimeoutS: 900}, {Name: "race-0", Race: true, TimeoutS: 1500}}
+			bs := []vh.Batch{{Name: "cakinds-0", TimeoutS: 900}, {Name: "direct-0", TimeoutS: 900}, {Name: "proxy-0", TimeoutS: 900}, {Name: "expiry-0", TimeoutS: 900}, {Name: "conc-0", TimeoutS: 900}, {Name: "race-0", Race: true, TimeoutS: 1500}}
 			if tier == "thorough" {
 				for i := 1; i < 8; i++ {
 					bs = append(bs, vh.Batch{Name: fmt.Sprintf("direct-%d", i), TimeoutS: 900})
@@ -79,7 +85,16 @@ type hostCase struct {
 
 const ldh = "abcdefghijklmnopqrstuvwxyz0123456789-"
 
+var oddLabels = []string{"r3---sn-q4flrnek", "ab--cd", "a--b", "x---y", "0", "9a", "a", "1-2-3", "m--", "zz--top"}
+
 func label(rng *rand.Rand, maxLen int) string {
+	if rng.Intn(6) == 0 {
+		l := oddLabels[rng.Intn(len(oddLabels))]
+		if strings.HasSuffix(l, "-") {
+			l += "k"
+		}
+		return l
+	}
 	n := 1 + rng.Intn(maxLen)
 	b := make([]byte, n)
 	for i := range b {
@@ -207,19 +222,105 @@ func genCase(rng *rand.Rand, stream string, idx int, path string) hostCase {
 
 type env struct {
 	ca     *x509.Certificate
-	capriv *rsa.PrivateKey
+	capriv interface{}
 	roots  *x509.CertPool
+	kind   string // how the configured CA was made
 }
 
-func newEnv() (*env, error) {
-	ca, priv, err := mitm.NewAuthority("verif CA", "Verif Org", time.Hour)
+// caKinds: the configured CA is what the operator hands to mitm.NewConfig. It
+// need not be a self-signed RSA root made by mitm.NewAuthority: any signing
+// certificate with its key is legitimate, e.g. an ECDSA root or a subordinate
+// CA issued by a root with another key type. The oracle verifies the presented
+// chain with the CONFIGURED CA as trust anchor in every case.
+var caKinds = []string{"authority-rsa", "self-ecdsa", "sub-ecdsa-under-rsa", "sub-rsa-under-ecdsa"}
+
+func makeCA(name string, key interface{}, pub interface{}, parent *x509.Certificate, parentKey interface{}) (*x509.Certificate, error) {
+	serial, _ := crand.Int(crand.Reader, big.NewInt(1<<62))
+	tmpl := &x509.Certificate{
+		SerialNumber:          serial,
+		Subject:               pkix.Name{CommonName: name, Organization: []string{"Verif CA Org"}},
+		KeyUsage:              x509.KeyUsageCertSign | x509.KeyUsageDigitalSignature,
+		ExtKeyUsage:           []x509.ExtKeyUsage{x509.ExtKeyUsageServerAuth},
+		BasicConstraintsValid: true,
+		IsCA:                  true,
+		NotBefore:             time.Now().Add(-time.Hour),
+		NotAfter:              time.Now().Add(24 * time.Hour),
+	}
+	signer, signerKey := tmpl, key
+	if parent != nil {
+		signer, signerKey = parent, parentKey
+	}
+	raw, err := x509.CreateCertificate(crand.Reader, tmpl, signer, pub, signerKey)
 	if err != nil {
 		return nil, err
 	}
+	return x509.ParseCertificate(raw)
+}
+
+func newEnvKind(kind string) (*env, error) {
+	var ca *x509.Certificate
+	var key interface{}
+	switch kind {
+	case "self-ecdsa":
+		k, err := ecdsa.GenerateKey(elliptic.P256(), crand.Reader)
+		if err != nil {
+			return nil, err
+		}
+		c, err := makeCA("verif ECDSA root", k, &k.PublicKey, nil, nil)
+		if err != nil {
+			return nil, err
+		}
+		ca, key = c, k
+	case "sub-ecdsa-under-rsa":
+		rk, err := rsa.GenerateKey(crand.Reader, 2048)
+		if err != nil {
+			return nil, err
+		}
+		root, err := makeCA("verif RSA root", rk, &rk.PublicKey, nil, nil)
+		if err != nil {
+			return nil, err
+		}
+		k, err := ecdsa.GenerateKey(elliptic.P256(), crand.Reader)
+		if err != nil {
+			return nil, err
+		}
+		c, err := makeCA("verif ECDSA issuing CA", k, &k.PublicKey, root, rk)
+		if err != nil {
+			return nil, err
+		}
+		ca, key = c, k
+	case "sub-rsa-under-ecdsa":
+		ek, err := ecdsa.GenerateKey(elliptic.P256(), crand.Reader)
+		if err != nil {
+			return nil, err
+		}
+		root, err := makeCA("verif ECDSA root", ek, &ek.PublicKey, nil, nil)
+		if err != nil {
+			return nil, err
+		}
+		k, err := rsa.GenerateKey(crand.Reader, 2048)
+		if err != nil {
+			return nil, err
+		}
+		c, err := makeCA("verif RSA issuing CA", k, &k.PublicKey, root, ek)
+		if err != nil {
+			return nil, err
+		}
+		ca, key = c, k
+	default:
+		kind = "authority-rsa"
+		c, k, err := mitm.NewAuthority("verif CA", "Verif Org", time.Hour)
+		if err != nil {
+			return nil, err
+		}
+		ca, key = c, k
+	}
 	pool := x509.NewCertPool()
 	pool.AddCert(ca)
-	return &env{ca: ca, capriv: priv, roots: pool}, nil
+	return &env{ca: ca, capriv: key, roots: pool, kind: kind}, nil
 }
+
+func newEnv() (*env, error) { return newEnvKind("authority-rsa") }
 
 func (e *env) config(org string, validity time.Duration) (*mitm.Config, error) {
 	mc, err := mitm.NewConfig(e.ca, e.capriv)
@@ -341,8 +442,24 @@ type proxyEnv struct {
 	ln *vh.PipeListener
 }
 
-func startProxy(mc *mitm.Config) *proxyEnv {
+// rewriteConnect is what a URL-rewriting request modifier (martianurl.Modifier,
+// api.Forwarder) does to a CONNECT request: it redirects the upstream by
+// changing req.URL.Host. The certificate is still owed to the host the CLIENT
+// named (SNI, else the CONNECT authority it sent).
+var rewriteConnect = martian.RequestModifierFunc(func(req *http.Request) error {
+	if req.Method == "CONNECT" {
+		req.URL.Host = "staging.internal.test:8443"
+	}
+	return nil
+})
+
+func startProxy(mc *mitm.Config) *proxyEnv { return startProxyMod(mc, false) }
+
+func startProxyMod(mc *mitm.Config, rewrite bool) *proxyEnv {
 	p := martian.NewProxy()
+	if rewrite {
+		p.SetRequestModifier(rewriteConnect)
+	}
 	p.SetMITM(mc)
 	p.SetTimeout(120 * time.Second)
 	p.SetDial(func(network, addr string) (net.Conn, error) { return nil, errors.New("no upstream in C06") })
@@ -468,9 +585,14 @@ func runHandshakes(r *vh.Run, e *env, batch, path string, n int) {
 		return
 	}
 	var pe *proxyEnv
+	rewrite := false
 	if path == "proxy" {
-		pe = startProxy(mc)
+		rewrite = rng0.Intn(2) == 0 || strings.HasSuffix(batch, "-0")
+		pe = startProxyMod(mc, rewrite)
 		defer pe.stop()
+		if rewrite {
+			path = "proxy+url-rewrite"
+		}
 	}
 	seen := map[string]map[string]bool{} // want -> serials
 	var prev []hostCase
@@ -481,12 +603,18 @@ func runHandshakes(r *vh.Run, e *env, batch, path string, n int) {
 			c = prev[rng.Intn(len(prev))] // repeat an earlier name: cache hit expected (not required)
 			c.Idx = i
 		} else {
-			c = genCase(rng, "c06-"+batch, i, path)
+			gp := path
+			if pe != nil {
+				gp = "proxy"
+			}
+			c = genCase(rng, "c06-"+batch, i, gp)
+			c.Path = path
 		}
 		c.Org = org
 		r.Case(c)
 		var res hsResult
-		if path == "proxy" {
+		if pe != nil {
+			c.Path = path
 			res = handshakeProxy(pe, c.Authority, c.SNI)
 		} else if rng.Intn(4) == 0 {
 			c.Path = "direct-tcp"
@@ -506,7 +634,7 @@ func runHandshakes(r *vh.Run, e *env, batch, path string, n int) {
 				state = "hit"
 			}
 			seen[strings.ToLower(c.Want)][serial] = true
-			r.Class(fmt.Sprintf("%s|%s|cache=%s|conc=1", c.Path, c.Class, state))
+			r.Class(fmt.Sprintf("%s|%s|cache=%s|conc=1|ca=%s", c.Path, c.Class, state, e.kind))
 			r.Count("handshakes_verified", 1)
 			prev = append(prev, c)
 			if i < 2 {
@@ -682,9 +810,26 @@ func runConcurrent(r *vh.Run, e *env, batch string, rounds int) {
 }
 
 func run(r *vh.Run, batch string) {
-	e, err := newEnv()
+	// the CA kind rotates with the batch index (…-0 = mitm.NewAuthority's RSA root)
+	idx := 0
+	if i := strings.LastIndex(batch, "-"); i >= 0 {
+		fmt.Sscanf(batch[i+1:], "%d", &idx)
+	}
+	kind := caKinds[idx%len(caKinds)]
+	if strings.HasPrefix(batch, "cakinds") {
+		for _, k := range caKinds {
+			e, err := newEnvKind(k)
+			if err != nil {
+				r.Inconclusive("CA construction failed", err.Error())
+				return
+			}
+			runHandshakes(r, e, batch+"-"+k, "direct", r.Pick(12, 60))
+		}
+		return
+	}
+	e, err := newEnvKind(kind)
 	if err != nil {
-		r.Inconclusive("NewAuthority failed", err.Error())
+		r.Inconclusive("CA construction failed", err.Error())
 		return
 	}
 	switch {
@@ -715,8 +860,8 @@ func replay(r *vh.Run, raw json.RawMessage) {
 	mc, _ := e.config(c.Org, 0)
 	var res hsResult
 	switch c.Path {
-	case "proxy":
-		pe := startProxy(mc)
+	case "proxy", "proxy+url-rewrite":
+		pe := startProxyMod(mc, c.Path == "proxy+url-rewrite")
 		defer pe.stop()
 		res = handshakeProxy(pe, c.Authority, c.SNI)
 	case "tls-sni-only":
